@@ -1,5 +1,5 @@
 (* C12 -- a failed call never desynchronises the calls that follow it. *)
-From TM Require Import Base Frame Pdu RtuCodec Framed Client FramedProofs ClientProofs Histories.
+From TM Require Import Base Frame Pdu RtuCodec Framed Client FramedProofs ClientProofs Histories Abandon.
 
 (* invariant: whatever happened in earlier calls (success, exception, mismatch, decoding error, read
    error, abandonment), a call starts with no latched framing error *)
@@ -18,3 +18,17 @@ Theorem C12_exchange : forall p m st req bg f rr cs rest w bg1,
   fc_value (rr_fc rr) = fc_value (req_fc req) ->
   fst (call p m st req bg) = match rr with RROk r => CROk r | RRExc e => CRExc (exr_exception e) end.
 Proof. exact exchange_returns_reply. Qed.
+
+(* the hypotheses of [C12_exchange] hold after ANY history of calls on a transport that stays open -- completed,
+   failed (decoding error, read error, mismatch), abandoned; any surplus or fragment left in the receive buffer *)
+Theorem C12_history_keeps_usable : forall p m ops st, usable st -> Forall op_no_eof ops -> usable (run_ops p m st ops).
+Proof. exact history_usable. Qed.
+Theorem C12_exchange_after_any_history : forall p m ops st0 req bg f rr cs rest w bg1 ws fs,
+  usable st0 -> Forall op_no_eof ops ->
+  let st := push (run_ops p m st0 ops) ws fs (datas cs) in
+  send (client_enc p m (req_hdr p st) req) (wio_ st) bg = (SOk, w, bg1, false) ->
+  rq (run_ops p m st0 ops) = [] ->
+  Forall nonempty cs -> concat cs = f ++ rest -> client_valid p f (req_hdr p st, rr) ->
+  fc_value (rr_fc rr) = fc_value (req_fc req) ->
+  fst (call p m st req bg) = match rr with RROk r => CROk r | RRExc e => CRExc (exr_exception e) end.
+Proof. exact exchange_after_any_history. Qed.
